@@ -942,6 +942,17 @@ def check_c06(sc, res):
         for f in faults:
             sub_fault(f)
             tag({"sub": "fault", "fault": f})
+    # sampled pairs of faults anywhere in the trace (derived from the scenario, not from a PRNG
+    # of their own: the pair list is a pure function of the trace)
+    import random as _random
+    prng = _random.Random(tshape * 1000003 + K)
+    for _ in range(8 if K >= 4 else 0):
+        k1 = prng.randint(1, K - 1)
+        k2 = prng.randint(k1 + 1, K)
+        fl = [{"kind": "err", "k": k1, "errno": prng.choice(ERRNO_NAMES)},
+              {"kind": prng.choice(["err", "kill", "short-write"]), "k": k2, "errno": "EIO", "frac": k2}]
+        sub_faults(fl)
+        tag({"sub": "faults", "faults": fl})
     # sequences: err@k followed by err / kill at one of the next two calls, for every k of the
     # save phase (plus the last calls of the load phase)
     for k in range(max(1, base.events_at_entry - 1), K + 1):
